@@ -1,6 +1,7 @@
 import GapicModel.Model.Names
 import GapicModel.Pinned.Funcs
 import GapicModel.Lemmas.AddressT
+import GapicModel.Lemmas.SplitJoin
 /-
 C12 — reserved-word and colliding names are disambiguated without altering the wire.
 -/
@@ -324,6 +325,49 @@ theorem clientMethodName_is_translated (w : String) :
     simp [h']
 
 end TranslatedMethodName
+
+/-! ## HTTP path variables over the code's current `_fix_name_segment` / `_fix_field_path` (gapic/utils/uri_conv.py, translated
+by harness/pyfun2lean.py and re-bridged on every run): `uri_variable_resolves` above is about the hand-written `uriVar`; these
+say the same of the translated bodies, at every depth -/
+section TranslatedUriVariable
+open GapicModel.PyRt
+
+/-- the translated `_fix_name_segment` is `fieldAttr`: one trailing underscore exactly for the words of the reserved list -/
+theorem translated_name_segment_is_attr (w : String) :
+    Pinned.Funcs.fix_name_segment w.toList = (fieldAttr w).toList := by
+  unfold Pinned.Funcs.fix_name_segment fieldAttr isReserved
+  rw [contains_map_toList]
+  by_cases h : Pinned.reservedNames.contains w = true
+  · have h' := List.contains_iff_mem.mp h
+    simp [h', String.toList_append]
+  · have h' : w ∉ Pinned.reservedNames := fun hm => h (List.contains_iff_mem.mpr hm)
+    simp [h']
+
+/-- the translated `_fix_field_path` works segment by segment on ANY dotted path: `".".join(p)` becomes
+`".".join(_fix_name_segment(s) for s in p)` — for every number of segments (a version that treats only the last one or
+two segments, or the whole dotted string, is refuted by this equation) -/
+theorem translated_field_path_segmentwise (p : List Str) (hne : p ≠ []) (hd : ∀ s ∈ p, '.' ∉ s) :
+    Pinned.Funcs.fix_field_path (join ['.'] p) = join ['.'] (p.map Pinned.Funcs.fix_name_segment) := by
+  unfold Pinned.Funcs.fix_field_path
+  rw [Lemmas.SplitJoin.split_join '.' p hne hd]
+
+/-- **the variable `convert_uri_fieldnames` writes for a dotted path IS the dotted attribute path** (`attrPath`: what Python
+must evaluate on the proto-plus request to reach the field), for every path of field names (no segment holds a `.`) -/
+theorem translated_uri_variable_resolves (p : Path) (hne : p ≠ []) (hd : ∀ s ∈ p, '.' ∉ s.toList) :
+    Pinned.Funcs.fix_field_path (join ['.'] (p.map String.toList)) = join ['.'] ((attrPath p).map String.toList) := by
+  rw [translated_field_path_segmentwise _ (by simpa using hne) (by
+    intro s hs
+    obtain ⟨w, hw, rfl⟩ := List.mem_map.mp hs
+    exact hd w hw)]
+  congr 1
+  simp only [attrPath, List.map_map]
+  exact List.map_congr_left (fun w _ => translated_name_segment_is_attr w)
+
+/-- three segments, reserved words in non-leaf positions (the shape seed13_C12 broke), evaluated on the translated body -/
+example : Pinned.Funcs.fix_field_path "entry.import.name".toList = "entry.import_.name".toList ∧
+    Pinned.Funcs.fix_field_path "class.b.in.x".toList = "class_.b.in_.x".toList := by decide +kernel
+
+end TranslatedUriVariable
 
 /-! ## `Address` naming over the method bodies translated from the current source (Model/AddressT.lean, Lemmas/AddressT.lean)
 
